@@ -47,6 +47,7 @@ type caseInfo struct {
 	Baseline   string   `json:"baseline,omitempty"`
 	Deviations []string `json:"deviations,omitempty"`
 	Shape      string   `json:"shape,omitempty"`
+	Feature    string   `json:"feature,omitempty"` // label-derived trait that goes into "rejects well-formed" signatures
 	Text       string   `json:"message_textproto"`
 }
 
@@ -110,7 +111,7 @@ func (c *checker) compare(cs *caseInfo, validator, form string, v verdict, pan b
 	case v.expect == dontcare:
 		c.r.Add("outside_compared_domain", 1)
 	case v.expect == yes && err != nil:
-		c.violation("rejects well-formed: "+errClass(err), fmt.Sprintf("well-formed by every rule, library refuses: %v", err), cs, validator, form, err.Error(), "accept")
+		c.violation("rejects well-formed: "+errClass(err)+cs.Feature, fmt.Sprintf("well-formed by every rule, library refuses: %v", err), cs, validator, form, err.Error(), "accept")
 	case v.expect == no && err == nil:
 		c.violation("accepts ill-formed: "+v.broken[0], fmt.Sprintf("violates %v, library accepts", v.broken), cs, validator, form, "accepted", "reject: "+strings.Join(v.broken, ","))
 	}
@@ -357,6 +358,7 @@ func TestCheck(t *testing.T) {
 		"connection string \"mysql://\" (empty DSN) is outside the compared domain: the documented grammar asks for /dbname, the driver defaults every part",
 		"usable connection string = documented grammar of config.proto and a scheme some driver takes (mysql | postgresql | postgres)",
 		"the file loaders refuse empty sets (documented): compared as loader behaviour, not as validation",
+		"a LogMultiConfig whose backends or log_configs message is absent altogether and that breaks no rule otherwise: only 'no panic' is demanded (accepting it as empty or refusing it as incomplete both conform)",
 		"only parser-producible messages: no nil elements inside repeated fields",
 		"external-storage configurations stop at validation (SetUpInstance would dial the database)",
 		"mirror instances get a contract-abiding MirrorSTHStorage (largest known source STH with tree_size <= maxTreeSize, else an error)",
